@@ -16,15 +16,27 @@ EN_WORDS = ['ID=7', 'ID', 'UUID=42', 'log', 'ROOT', '(ROOT', 'a)b', ':)-', '1)a'
 JA_WORDS = ['ID=7', 'ID', 'UUID=42', 'SSEQ', '<', '>B', 'ADV0', '犬', 'が', 'は', '走る', '(', ')', '[', ']', 'abc', '１２', 'を', '、', '。', 'x>y', '&', 'た', 'ー']
 
 
-def random_tree(rng, cats, words, lang, max_leaves=5, symbols=None):
+def random_tree(rng, cats, words, lang, max_leaves=5, symbols=None, token_style='plain'):
     """an arbitrary well-formed tree over the given categories (not grammar-licensed)"""
+    import random as _random
     from depccg.tree import Tree
     from depccg.types import Token
     n = rng.randint(1, max_leaves)
+    trng = _random.Random(rng.getrandbits(30)) if token_style != 'plain' else None
 
     def leaf():
         w = rng.choice(words)
-        return Tree.make_terminal(Token.of_word(w), rng.choice(cats))
+        if token_style == 'annotated' and lang == 'ja':
+            # a token as annotate_using_janome / jigg leaves it: the dictionary form differs from the surface for
+            # inflected words, equals it for others, is '*' for unknown words
+            base = trng.choice([w, w, '*', w + 'る', '食べる'])
+            tok = Token(word=w, surf=w, pos='動詞', pos1='自立', pos2='*', pos3='*', inflectionForm='連用形',
+                        inflectionType='一段', reading='ヨミ', base=base)
+        elif token_style == 'annotated':
+            tok = Token(word=w, lemma=trng.choice([w, w.lower() + 'e', 'be']), pos='VBD', entity='O', chunk='I-VP')
+        else:
+            tok = Token.of_word(w)
+        return Tree.make_terminal(tok, rng.choice(cats))
 
     def build(k):
         if k == 1:
@@ -131,6 +143,7 @@ class C20(ParserSessionProp):
             'trailing_newline': rng.random() < 0.8,
             'paren_words': rng.random() < 0.3,
             'blank_lines': rng.random() < 0.2,
+            'token_style': rng.choice(['plain', 'annotated']),
         }
         return spec
 
@@ -161,7 +174,8 @@ class C20(ParserSessionProp):
         if f['fmt'] == 'ja':
             words = [w for w in words if not any(c in w for c in '/{}')]
         for _ in range(f['n_random_trees']):
-            trees.append(('arbitrary', random_tree(rng, world.categories, words, lang, symbols=symbols)))
+            trees.append(('arbitrary', random_tree(rng, world.categories, words, lang, symbols=symbols,
+                                                   token_style=f.get('token_style', 'plain'))))
         saved = get_global_language()
         set_global_language_to(lang)
         scratch_root = os.path.join(env.VERIF, '.build', 'scratch')
